@@ -11,15 +11,16 @@ EXTENDS Service, Json, TLCExt
 VARIABLES l,        \* next line of the trace
           sdAct,    \* a Shutdown call is in progress (between ShutdownStart and ShutdownEnd)
           rgAct,    \* a RegisterInterface call is in progress
-          bdAct     \* a Bind call is in progress
+          bdAct,    \* a Bind call is in progress
+          sdl       \* the listener saw SetDeadline since the accept loop last came round
 
 TraceLog == ndJsonDeserialize("trace.ndjson")
-tvars == <<vars, l, sdAct, rgAct, bdAct>>
+tvars == <<vars, l, sdAct, rgAct, bdAct, sdl>>
 Ev(e) == l <= Len(TraceLog) /\ TraceLog[l].ev = e /\ l' = l + 1
 E == TraceLog[l]
-KeepT == UNCHANGED <<sdAct, rgAct, bdAct>>
+KeepT == UNCHANGED <<sdAct, rgAct, bdAct, sdl>>
 
-TraceInit == Init /\ TraceLog[1].ev = "Reset" /\ l = 2 /\ sdAct = FALSE /\ rgAct = FALSE /\ bdAct = FALSE
+TraceInit == Init /\ TraceLog[1].ev = "Reset" /\ l = 2 /\ sdAct = FALSE /\ rgAct = FALSE /\ bdAct = FALSE /\ sdl = FALSE
 
 AllIdle == spc = "idle" /\ \A c \in Clients : cst[c] \in {"idle", "released", "queued"}
 TReset ==           \* a new service object
@@ -32,7 +33,7 @@ TReset ==           \* a new service object
   /\ sdpc' = "idle" /\ bdpc' = "idle" /\ rgpc' = "idle" /\ rgarg' = "" /\ rgret' = "none"
   /\ gate' = FALSE
   /\ g_sdWaiting' = FALSE /\ g_sdDoneAt' = {} /\ g_servedEp' = 0 /\ g_regs' = <<>>
-  /\ sdAct' = FALSE /\ rgAct' = FALSE /\ bdAct' = FALSE
+  /\ sdAct' = FALSE /\ rgAct' = FALSE /\ bdAct' = FALSE /\ sdl' = FALSE
 
 (* the harness installs a fresh controlled listener (what Bind does at 210-212) *)
 TInstall ==
@@ -45,15 +46,18 @@ TInstall ==
 
 (* a real Bind call (second bind): BindStart ... BindEnd(res) *)
 TBindStart == /\ Ev("BindStart") /\ ~bdAct /\ bdpc = "idle"
-              /\ bdAct' = TRUE /\ UNCHANGED <<vars, sdAct, rgAct>>
+              /\ bdAct' = TRUE /\ UNCHANGED <<vars, sdAct, rgAct, sdl>>
 TBindEnd ==   /\ Ev("BindEnd") /\ bdAct
               /\ bdpc = (IF E.res = "ok" THEN "done" ELSE "refused")
-              /\ bdAct' = FALSE /\ UNCHANGED <<vars, sdAct, rgAct>>
+              /\ bdAct' = FALSE /\ UNCHANGED <<vars, sdAct, rgAct, sdl>>
 
-TServeStart == /\ Ev("ServeStart") /\ ServeStart(E.timeout, E.gate) /\ KeepT
+TServeStart == /\ Ev("ServeStart") /\ ServeStart(E.timeout, E.gate) /\ sdl' = FALSE /\ UNCHANGED <<sdAct, rgAct, bdAct>>
 TServeReturn == /\ Ev("ServeReturn") /\ T_Return /\ sret = E.ret /\ KeepT
 
-TSetDeadline == /\ Ev("SetDeadline") /\ spc = "refresh" /\ UNCHANGED vars /\ KeepT
+(* the deadline must be re-armed before every accept of a serving call with a timeout: *)
+(* L_Refresh is only possible once the listener has seen SetDeadline                   *)
+TSetDeadline == /\ Ev("SetDeadline") /\ spc = "refresh" /\ ~sdl /\ sdl' = TRUE
+                /\ UNCHANGED <<vars, sdAct, rgAct, bdAct>>
 TRelease == /\ Ev("Release") /\ ReleaseGate /\ KeepT
 TAcceptEnter == /\ Ev("AcceptEnter") /\ spc = "accept" /\ UNCHANGED vars /\ KeepT
 TAcceptConn == /\ Ev("AcceptConn") /\ L_AcceptConn(E.c) /\ KeepT
@@ -73,9 +77,9 @@ TShutdownStart == /\ Ev("ShutdownStart") /\ ~sdAct /\ sdpc \in {"idle", "done"}
                   /\ sdpc' = "idle"
                   /\ UNCHANGED <<running, listener, lstate, nextid, counter, wg, names, spc, sl, tmo, acc, sret, rounds,
                                  expiries, cst, cl, bdpc, rgpc, rgarg, rgret, gate, g_sdWaiting, g_sdDoneAt, g_servedEp, g_regs>>
-                  /\ sdAct' = TRUE /\ UNCHANGED <<rgAct, bdAct>>
+                  /\ sdAct' = TRUE /\ UNCHANGED <<rgAct, bdAct, sdl>>
 TShutdownEnd == /\ Ev("ShutdownEnd") /\ sdAct /\ sdpc = "done"
-                /\ sdAct' = FALSE /\ UNCHANGED <<vars, rgAct, bdAct>>
+                /\ sdAct' = FALSE /\ UNCHANGED <<vars, rgAct, bdAct, sdl>>
 
 TConnect == /\ Ev("Connect") /\ Connect(E.c) /\ cl'[E.c] = E.id /\ KeepT
 TConnectRefused == /\ Ev("ConnectRefused") /\ lstate[E.id] = "closed" /\ UNCHANGED vars /\ KeepT
@@ -85,20 +89,23 @@ TConnClosed == /\ Ev("ConnClosed") /\ cst[E.c] \in {"ended", "released"} /\ UNCH
 TActive == /\ Ev("Active") /\ counter = E.n /\ UNCHANGED vars /\ KeepT
 
 TRegisterStart == /\ Ev("RegisterStart") /\ ~rgAct /\ R_Start(E.i)
-                  /\ rgAct' = TRUE /\ UNCHANGED <<sdAct, bdAct>>
+                  /\ rgAct' = TRUE /\ UNCHANGED <<sdAct, bdAct, sdl>>
 TRegisterEnd == /\ Ev("RegisterEnd") /\ rgAct /\ rgpc = "done" /\ rgarg = E.i /\ rgret = E.res
-                /\ rgAct' = FALSE /\ UNCHANGED <<vars, sdAct, bdAct>>
+                /\ rgAct' = FALSE /\ UNCHANGED <<vars, sdAct, bdAct, sdl>>
 (* what the client helpers report (C13): names in registration order *)
 (* "t.e" is registered by the harness when it creates the service object *)
 Reported == <<"org.varlink.service", "t.e">> \o g_regs
 TIntrospect == /\ Ev("Introspect")
-               /\ E.names = Reported /\ E.fields_ok /\ E.unlisted_ok
+               /\ E.names = Reported /\ E.fields_ok
+               \* of the probed candidate names exactly the registered ones have a description
+               /\ E.described = SelectSeq(<<"i1", "i2", "i3", "no.such", "", "org.varlink.servic", "I1", "t.e.">>,
+                                          LAMBDA n : \E k \in 1..Len(g_regs) : g_regs[k] = n)
                /\ E.descs = [k \in 1..Len(Reported) |-> "d:" \o Reported[k]]
                /\ cst[E.c] = "handled"
                /\ UNCHANGED vars /\ KeepT
 
-Silent ==
-  /\ \/ D_GetL \/ L_SetRunning \/ L_Check \/ L_Refresh \/ L_Timeout \/ L_AccErr \/ L_Inc \/ L_Spawn \/ T_Wait
+SilentRest ==
+  /\ \/ D_GetL \/ L_SetRunning \/ L_Check \/ L_Timeout \/ L_AccErr \/ L_Inc \/ L_Spawn \/ T_Wait
      \/ (T_Teardown /\ lstate' = lstate)                  \* a close of an open listener must have been observed
      \/ \E c \in Clients : H_Exit(c)
      \/ (sdAct /\ (S_All \/ S_Clear \/ S_Close) /\ lstate' = lstate)
@@ -106,7 +113,10 @@ Silent ==
      \/ (~rgAct /\ R_Again)
      \/ (bdAct /\ (B_Check \/ B_Set))
      \/ (~bdAct /\ B_Again)
-  /\ UNCHANGED <<l, sdAct, rgAct, bdAct>>
+
+Silent ==
+  /\ \/ (L_Refresh /\ sdl /\ sdl' = FALSE /\ UNCHANGED <<l, sdAct, rgAct, bdAct>>)
+     \/ SilentRest /\ UNCHANGED <<l, sdAct, rgAct, bdAct, sdl>>
 
 TraceNext == TReset \/ TInstall \/ TBindStart \/ TBindEnd \/ TServeStart \/ TServeReturn \/ TSetDeadline \/ TRelease
              \/ TAcceptEnter \/ TAcceptConn \/ TAcceptTimeout \/ TAcceptClosed \/ TListenerClose
